@@ -281,8 +281,8 @@ func init() {
 					{"aaa", "1", "0,5", "0", "1.5", fmt.Sprint(int64(2 * U))}, // growth instead of decay
 					{"aaa", "1", "0.9,1", "0", "0.5", fmt.Sprint(int64(U))},   // narrow range
 					{"bbb", "1.5", "1.5,2", "0", "1", "0"},                    // decay off + weight change
-					{"ccc", "1", "1,1", "0", "0.9", fmt.Sprint(int64(U))},   // decay configured on a (1,1) range
-					{"ddd", "1", "0,5", "0", "0.5", fmt.Sprint(int64(U))},   // decay switched on for an asset that had rate 1 with an interval
+					{"ccc", "1", "1,1", "0", "0.9", fmt.Sprint(int64(U))},     // decay configured on a (1,1) range
+					{"ddd", "1", "0,5", "0", "0.5", fmt.Sprint(int64(U))},     // decay switched on for an asset that had rate 1 with an interval
 				} {
 					var iv int64
 					fmt.Sscan(v[5], &iv)
